@@ -143,7 +143,7 @@ Section Idem.
     lookup n (globals st1) = Some (gget st1 f).
   Proof.
     intros st st1 n f I E HI HF.
-    destruct (state_funcref S WF B _ _ _ _ HI HF I E) as [EQ [a G]].
+    destruct (state_funcref S WF B _ _ _ _ HI HF E) as [EQ [a G]].
     (* the slot exists: it was written by this Load *)
     destruct (version_split S WF B _ HI) as (v1 & v2 & _ & VEQ & W1 & W2). simpl in *.
     rewrite VEQ in E. apply exec_list_app in E. destruct E as (sa & E1 & E2). simpl in E2.
